@@ -39,7 +39,7 @@ func init() {
 		MinDistinct:     floor(15000, 200000),
 		RequiredCells: func(string) []string {
 			return []string{"purity/encrypted-meta/history", "purity/encrypted-meta/concurrent", "roundtrip/constructed", "roundtrip/dagcbor", "roundtrip/dagjson", "roundtrip/delegation", "roundtrip/invocation", "roundtrip/string", "roundtrip/bytes",
-				"tamper/bitflip-nonce", "tamper/bitflip-mac", "tamper/bitflip-body", "tamper/truncate", "plain/self-describing", "plain/self-describing/kind-0", "plain/self-describing/kind-1", "plain/self-describing/kind-4", "wrong-key", "wrong-key/related", "plaintext-absent", "fresh-nonce", "fresh-nonce/option-reused", "key-buffer-reused", "entropy-fault", "never-encrypted", "badkey/derived-from-right-key", "badkey/nil", "badkey/size", "badkey/zero", "len=0", "len=1024"}
+				"tamper/bitflip-nonce", "tamper/bitflip-mac", "tamper/bitflip-body", "tamper/truncate", "size-sweep", "plain/self-describing", "plain/self-describing/kind-0", "plain/self-describing/kind-1", "plain/self-describing/kind-4", "wrong-key", "wrong-key/related", "plaintext-absent", "fresh-nonce", "fresh-nonce/option-reused", "key-buffer-reused", "entropy-fault", "never-encrypted", "badkey/derived-from-right-key", "badkey/nil", "badkey/size", "badkey/zero", "len=0", "len=1024"}
 		},
 	})
 }
@@ -48,6 +48,7 @@ func runC19(w *mon.W) {
 	if purityGate(w, c19Purity) {
 		return
 	}
+	c19Sizes(w)
 	r := w.Rng
 	lens := []int{0, 1, 15, 16, 17, 64, 1024}
 	if w.Thorough() {
@@ -629,4 +630,59 @@ func selfDescribing(which, n int) []byte {
 		return append([]byte{0xa1, 0x61, 0x61, 0x58, byte(min(n, 23))}, body[:min(n, 23)]...)
 	}
 	return append([]byte("PK\x03\x04"), body...)
+}
+
+// c19Sizes: plaintext lengths on both sides of the powers of two, shifted by the 40 bytes a
+// stored value is longer than its plaintext (nonce and authenticator): what is accepted when
+// added comes back when read, also after seal / unseal.
+func c19Sizes(w *mon.W) {
+	r := w.Rng
+	cmd := command.MustParse("/a")
+	idx := 0
+	for _, k := range []int{10, 12, 16, 20} {
+		for _, d := range []int{-41, -40, -39, -24, -16, -1, 0, 1} {
+			idx++
+			if !w.Mine(idx) {
+				continue
+			}
+			n := 1<<k + d
+			plain := gen.Bytes(r, n)
+			key := gen.Bytes(r, 32)
+			m := meta.NewMeta()
+			w.Eval(1)
+			w.Cover("size-sweep")
+			if err := m.AddEncrypted("secret", plain, key); err != nil {
+				w.Count("size-sweep/refused-when-added", 1) // (a size limit is not excluded; what is accepted must come back)
+				continue
+			}
+			got, err := m.GetEncryptedBytes("secret", key)
+			if err != nil || !bytes.Equal(got, plain) {
+				w.Violate("roundtrip/size-sweep/meta", fmt.Sprintf("a %d-byte plaintext (2^%d%+d) is accepted by AddEncrypted but does not come back from GetEncryptedBytes with the same key: err=%v, %d bytes", n, k, d, err, len(got)),
+					map[string]any{"plaintext_len": n, "error": errStr(err), "returned_len": len(got)})
+				continue
+			}
+			if d != -39 && d != 0 {
+				continue
+			}
+			p := gen.Ed(idx)
+			dl, err := delegation.Root(p.DID, gen.Ed(idx+1).DID, cmd, policy.Policy{}, delegation.WithEncryptedMetaBytes("secret", plain, key))
+			if err != nil {
+				continue
+			}
+			sealed, _, err := dl.ToSealed(p.Priv)
+			if err != nil {
+				continue
+			}
+			d2, _, err := delegation.FromSealed(sealed)
+			if err != nil {
+				w.Count("size-sweep/unseal-fails(judged by C07)", 1)
+				continue
+			}
+			got, err = d2.Meta().GetEncryptedBytes("secret", key)
+			w.Eval(1)
+			if err != nil || !bytes.Equal(got, plain) {
+				w.Violate("roundtrip/size-sweep/unsealed", fmt.Sprintf("a %d-byte plaintext (2^%d%+d) in a sealed and unsealed delegation does not come back with the same key: err=%v", n, k, d, err), map[string]any{"plaintext_len": n, "error": errStr(err)})
+			}
+		}
+	}
 }
